@@ -80,7 +80,7 @@ H(name="enc_format_cs3_key", crate="kestrel-crypto", props=["C01", "C06", "C07",
   desc=ENC_DESC, funcs=ENC_FUNCS, bounds="chunk size 3; plaintext 0..5 bytes; every partition into reads of 1..3 bytes (up to 5 chunks); key mode", env=[E_AEAD, E_ZERO], outside="> 5 chunks")
 H(name="enc_format_cs3_pass", crate="kestrel-crypto", props=["C02", "C06", "C07", "C08"], tier="thorough", est_s=1500, timeout=5400, mem_gb=16,
   desc=ENC_DESC, funcs=ENC_FUNCS, bounds="chunk size 3; plaintext 0..5 bytes; every read partition; password mode", env=[E_AEAD, E_ZERO], outside="> 5 chunks")
-H(name="enc_faults_cs2", crate="kestrel-crypto", props=["C10"], est_s=300,
+H(name="enc_faults_cs2", crate="kestrel-crypto", props=["C10"], est_s=400, mem_gb=16, rlimit_gb=40, timeout=1800,
   desc="one fault (Interrupted/WouldBlock/BrokenPipe/Other, or Ok(0) write) at a solver-chosen read/write/flush call of encrypt_chunks: never a panic; read fault => IORead, write/flush fault => IOWrite; Ok only without fault or after a retried Interrupted write; what was written is a prefix of the model output; nothing written after the failure",
   funcs=ENC_FUNCS, bounds="chunk size 2, plaintext 0..3 bytes, greedy reads, fault index 0..4, one fault per run", env=[E_AEAD, E_ZERO], outside="two or more faults per run")
 H(name="enc_short_writes_cs1", crate="kestrel-crypto", props=["C10", "C01", "C02"], est_s=300, timeout=1800, mem_gb=10,
